@@ -53,6 +53,10 @@ def _exec_case(job):
         if cfg.get("profile"):
             args = args + ["-p", os.path.join(rundir, "prof.json")]
         o = sf.run_dl(text_path, facts, out, args=args, env=cfg.get("env"), timeout=cfg.get("timeout", 60))
+    if o.kind == "timeout" and not cfg.get("_retried"):
+        # a time-out is only believed if it repeats with ten times the limit (a loaded machine must not raise an alarm)
+        cfg2 = dict(cfg); cfg2["_retried"] = True; cfg2["timeout"] = 10 * cfg.get("timeout", 60)
+        return _exec_case((P, text_path, case, cfg2, rundir, exe))
     if o.kind == "ok":
         try:
             sf.collect(P, out, o)
